@@ -18,6 +18,8 @@ type SV struct {
 	KeyS  string
 	a     *Addr
 	isNil bool
+	// absolute-index bound variable: T == (- absBase absOff)
+	absBase, absOff string
 }
 
 type SpecEnv struct {
@@ -224,10 +226,31 @@ func (e *Enc) evalSpec(s *Spec, env *SpecEnv) SV {
 	case SQuant:
 		ne := env.child()
 		var bs []string
+		e.qn++
 		for _, v := range s.Vars {
-			n := "q!" + v
+			n := fmt.Sprintf("q%d!%s", e.qn, v)
 			ne.names[v] = intSV(n)
 			bs = append(bs, "("+n+" Int)")
+		}
+		// Absolute-index form: when a bound variable k is used as a slice index
+		// a[k], quantify over the absolute position j = off(a)+k so that the
+		// element term is (select row j) -- a clean E-matching pattern.
+		for _, v := range s.Vars {
+			base := findIndexBase(s.A, v)
+			if base == nil {
+				continue
+			}
+			nf := len(e.fatal)
+			bv := e.evalSpec(base, ne)
+			if len(e.fatal) > nf || bv.S != sliceSort || bv.a != nil {
+				e.fatal = e.fatal[:nf]
+				continue
+			}
+			n := ne.names[v].T
+			off := "(soff " + bv.T + ")"
+			sv := intSV(fmt.Sprintf("(- %s %s)", n, off))
+			sv.absBase, sv.absOff = n, off
+			ne.names[v] = sv
 		}
 		body := e.evalBool(s.A, ne)
 		return boolSV(fmt.Sprintf("(%s (%s) %s)", s.Op, strings.Join(bs, " "), body))
@@ -279,6 +302,10 @@ func (e *Enc) indexSV(a, i SV, env *SpecEnv, s *Spec) SV {
 				return intSV("0")
 			}
 			key := e.elemKey(u.Elem())
+			if i.absBase != "" && i.absOff == "(soff "+a.T+")" {
+				return SV{T: fmt.Sprintf("(select (select %s (sref %s)) %s)", e.hget(env.heap, key), a.T, i.absBase),
+					S: e.d.sortOf(u.Elem()), GoT: u.Elem()}
+			}
 			return SV{T: fmt.Sprintf("(select (select %s (sref %s)) (+ (soff %s) %s))", e.hget(env.heap, key), a.T, a.T, i.T),
 				S: e.d.sortOf(u.Elem()), GoT: u.Elem()}
 		case *types.Array:
@@ -447,6 +474,9 @@ func (e *Enc) evalBinary(s *Spec, env *SpecEnv) SV {
 		if s.B.Kind == SInt {
 			if k, ok := isPow2Minus1(s.B.Int); ok {
 				return intSV(fmt.Sprintf("(mod %s %s)", a.T, pow2big(k).String()))
+			}
+			if isSingleBit(s.B.Int) {
+				return intSV(fmt.Sprintf("(* %s (mod (div %s %s) 2))", s.B.Int.String(), a.T, s.B.Int.String()))
 			}
 		}
 		return intSV(fmt.Sprintf("(band %s %s)", a.T, b.T))
@@ -693,4 +723,36 @@ func (e *Enc) declareRec(sf *SpecFunc) {
 	body := e.evalSpec(sf.Body, env)
 	app := fmt.Sprintf("(%s %s)", sf.Name, strings.Join(args, " "))
 	e.recAxioms = append(e.recAxioms, fmt.Sprintf("(assert (forall (%s) (! (= %s %s) :pattern (%s))))", strings.Join(binders, " "), app, body.T, app))
+}
+
+// findIndexBase returns the base expression of the first a[v] in s where v is
+// the (unshadowed) bound variable.
+func findIndexBase(s *Spec, v string) *Spec {
+	if s == nil {
+		return nil
+	}
+	switch s.Kind {
+	case SQuant:
+		for _, x := range s.Vars {
+			if x == v {
+				return nil
+			}
+		}
+		return findIndexBase(s.A, v)
+	case SIndex:
+		if s.B != nil && s.B.Kind == SName && s.B.Name == v {
+			return s.A
+		}
+	}
+	for _, c := range []*Spec{s.A, s.B, s.C} {
+		if r := findIndexBase(c, v); r != nil {
+			return r
+		}
+	}
+	for _, c := range s.Args {
+		if r := findIndexBase(c, v); r != nil {
+			return r
+		}
+	}
+	return nil
 }
